@@ -1,69 +1,64 @@
 (** C19 — only well-formed HTTP/3 field sections are accepted; writers and parser agree.
     Only statements live here; each is closed by [exact] of a lemma proved in coq/H3Headers.
-    [WF] is the reference predicate written from RFC 9114 section 4 (H3Headers/Spec.v);
-    [WFx] is [WF] with the two places made explicit where headers.go is weaker
-    (duplicate pseudo-header after an EMPTY first value; EMPTY Content-Length). *)
+    [WF] is the reference predicate written from RFC 9114 section 4 (H3Headers/Spec.v).
+    The model mirrors headers.go as repaired by fixes/C19-dup-pseudo-empty-first.patch and
+    fixes/C19-content-length-empty-accepted.patch; before the repair acceptance was only the
+    weaker [WFx] (duplicate pseudo-header after an EMPTY first value; EMPTY Content-Length) and
+    [C19_pseudo_unique_refuted] / [C19_content_length_numeric_refuted] were provable. *)
 From Coq Require Import List ZArith Bool String.
 From V Require Import Gen.Params Lib.Hex H3Headers.Model H3Headers.Spec H3Headers.Proofs H3Headers.ProofsParse H3Headers.ProofsMain H3Headers.ProofsComplete.
 Import ListNotations.
 Open Scope Z_scope.
 
-(** (a) Acceptance soundness, exactly as the code behaves: an accepted header section
-    satisfies every rule of RFC 9114 4.2/4.3 except that a pseudo-header may recur after
-    empty-valued occurrences and Content-Length may be empty; no decoding error was
-    swallowed; and the header handed on is the obvious function of the section. *)
+(** (a) Acceptance soundness: an accepted header section satisfies every rule of RFC 9114
+    4.2/4.3 — unconditionally —, its Content-Length fits 63 bits, no decoding error was
+    swallowed, and the header handed on is the obvious function of the section. *)
 Theorem C19_accept_sound : forall isReq lim fs te h,
   0 <= lim -> parseHeaders isReq lim fs te = inr h ->
-  te = false /\ WFx isReq lim fs /\ h = hdr_of fs.
+  te = false /\ WF isReq lim fs /\ cl_fits fs /\ h = hdr_of fs.
 Proof. exact parseHeaders_sound. Qed.
 Print Assumptions C19_accept_sound.
 
-(** ... and with the precise side conditions the RFC predicate itself holds. *)
-Theorem C19_accept_sound_rfc : forall isReq lim fs te h,
-  0 <= lim -> parseHeaders isReq lim fs te = inr h ->
-  no_empty_pseudo fs -> no_empty_cl fs ->
-  WF isReq lim fs /\ h = hdr_of fs.
-Proof. exact parseHeaders_sound_rfc. Qed.
-Print Assumptions C19_accept_sound_rfc.
+(** Two consequences spelled out, formerly refuted: pseudo-header fields are unique whatever
+    their values, and Content-Length is numeric (never empty) and single-valued. *)
+Theorem C19_pseudo_unique : forall isReq lim fs te h,
+  0 <= lim -> parseHeaders isReq lim fs te = inr h -> pseudo_unique fs.
+Proof. exact parseHeaders_pseudo_unique. Qed.
+Print Assumptions C19_pseudo_unique.
 
-(** FINDING (refutes "pseudo-header fields are unique"): [:method GET; :path ""; :path /a;
-    :authority x; :scheme https] is accepted, :path occurs twice, the request goes on with /a. *)
-Theorem C19_pseudo_unique_refuted :
-  exists fs h, parseHeaders true 65536 fs false = inr h /\ ~ pseudo_unique fs /\ sPath (hPs h) = bs "/a".
-Proof. exact pseudo_unique_refuted. Qed.
-Print Assumptions C19_pseudo_unique_refuted.
+Theorem C19_content_length_numeric : forall isReq lim fs te h,
+  0 <= lim -> parseHeaders isReq lim fs te = inr h -> cl_wf fs.
+Proof. exact parseHeaders_cl_wf. Qed.
+Print Assumptions C19_content_length_numeric.
 
-(** FINDING (refutes "Content-Length is numeric"): an empty Content-Length is accepted and dropped. *)
-Theorem C19_content_length_numeric_refuted :
-  exists fs h, parseHeaders true 65536 fs false = inr h /\ ~ cl_wf fs /\ hCL h = -1 /\
-               hget (bs "Content-Length") (hHeaders h) = None.
-Proof. exact content_length_numeric_refuted. Qed.
-Print Assumptions C19_content_length_numeric_refuted.
+(** The witnesses of the repaired defects are rejected as malformed. *)
+Example C19_dup_witness_rejected :
+  parseHeaders true 65536 dup_witness false = inl (EMalformed DupPseudo) /\
+  parseHeaders false 65536 [mk ":status" ""; mk ":status" "200"] false = inl (EMalformed DupPseudo).
+Proof. exact dup_witness_rejected. Qed.
+Print Assumptions C19_dup_witness_rejected.
+
+Example C19_empty_content_length_rejected :
+  parseHeaders true 65536 cl_witness false = inl (EMalformed CLInvalid).
+Proof. exact cl_witness_rejected. Qed.
+Print Assumptions C19_empty_content_length_rejected.
 
 (** (b) Anything else is rejected. *)
 Theorem C19_reject_complete : forall isReq lim fs te,
-  0 <= lim -> ~ WFx isReq lim fs -> exists e, parseHeaders isReq lim fs te = inl e.
+  0 <= lim -> ~ WF isReq lim fs -> exists e, parseHeaders isReq lim fs te = inl e.
 Proof. exact parseHeaders_reject. Qed.
 Print Assumptions C19_reject_complete.
 
-Theorem C19_reject_complete_rfc : forall isReq lim fs te,
-  0 <= lim -> ~ WF isReq lim fs -> no_empty_pseudo fs -> no_empty_cl fs ->
-  exists e, parseHeaders isReq lim fs te = inl e.
-Proof. exact parseHeaders_reject_rfc. Qed.
-Print Assumptions C19_reject_complete_rfc.
-
-(** (a)+(b) sharpened: acceptance is EXACTLY [WFx] — nothing else is accepted and nothing that
-    satisfies it is refused; in particular every section the RFC calls well-formed is accepted
-    (when its Content-Length fits 63 bits), with the obvious header. *)
+(** (a)+(b) sharpened: acceptance is EXACTLY "well-formed and Content-Length below 2^63" —
+    nothing else is accepted and nothing well-formed is refused. *)
 Theorem C19_accept_iff : forall isReq lim fs,
-  0 <= lim -> ((exists h, parseHeaders isReq lim fs false = inr h) <-> WFx isReq lim fs).
+  0 <= lim -> ((exists h, parseHeaders isReq lim fs false = inr h) <-> WF isReq lim fs /\ cl_fits fs).
 Proof. exact parseHeaders_iff. Qed.
 Print Assumptions C19_accept_iff.
 
 Theorem C19_accepts_wellformed : forall isReq lim fs,
-  WF isReq lim fs -> (forall f, In f fs -> is_cl f -> dec_value (fvalue f) < 2 ^ 63) ->
-  parseHeaders isReq lim fs false = inr (hdr_of fs).
-Proof. exact parseHeaders_accepts_WF. Qed.
+  WF isReq lim fs -> cl_fits fs -> parseHeaders isReq lim fs false = inr (hdr_of fs).
+Proof. exact parseHeaders_complete. Qed.
 Print Assumptions C19_accepts_wellformed.
 
 (** The byte-wise model of the lower-case test is a sound abstraction of Go's UTF-8 aware one:
@@ -104,7 +99,7 @@ Print Assumptions C19_trailers_reject.
     :scheme only for extended CONNECT) ... *)
 Theorem C19_request_rules : forall lim fs te uri r,
   0 <= lim -> requestFromHeaders lim fs te uri = inr r ->
-  te = false /\ WFx true lim fs /\ request_rules_x fs /\
+  te = false /\ WF true lim fs /\ request_rules_x fs /\
   rqMethod r = last_value (bs ":method") fs /\ rqHost r = last_value (bs ":authority") fs /\
   rqCL r = hCL (hdr_of fs).
 Proof. exact requestFromHeaders_sound. Qed.
@@ -117,7 +112,7 @@ Theorem C19_request_rules_rfc : forall fs,
 Proof. exact request_rules_from_x. Qed.
 Print Assumptions C19_request_rules_rfc.
 
-(** FINDINGS (low severity): a request without :scheme, and a CONNECT with :scheme, are accepted. *)
+(** FINDINGS still open (low severity): a request without :scheme, and a CONNECT with :scheme, are accepted. *)
 Theorem C19_request_scheme_refuted :
   exists fs r, requestFromHeaders 65536 fs false any_uri = inr r /\ ~ request_rules fs.
 Proof. exact request_scheme_refuted. Qed.
@@ -131,7 +126,7 @@ Print Assumptions C19_connect_scheme_refuted.
 (** Responses: :status present, non-empty, an integer. *)
 Theorem C19_response_rules : forall lim fs te r,
   0 <= lim -> updateResponseFromHeaders lim fs te = inr r ->
-  te = false /\ WFx false lim fs /\ last_value (bs ":status") fs <> [] /\
+  te = false /\ WF false lim fs /\ last_value (bs ":status") fs <> [] /\
   atoi (last_value (bs ":status") fs) = Some (rsCode r) /\ rsCL r = hCL (hdr_of fs).
 Proof. exact updateResponse_sound. Qed.
 Print Assumptions C19_response_rules.
@@ -172,6 +167,6 @@ Proof. exact nonvacuous_trailers. Qed.
 Print Assumptions C19_nonvacuous_trailers.
 
 Example C19_nonvacuous_rejection :
-  ~ WFx true 65536 [mk ":method" "GET"; mk "x" "a"; mk ":path" "/"].
+  ~ WF true 65536 [mk ":method" "GET"; mk "x" "a"; mk ":path" "/"].
 Proof. exact nonvacuous_rejection. Qed.
 Print Assumptions C19_nonvacuous_rejection.
